@@ -49,6 +49,12 @@ LAWS = [
     ("setpath(p; getpath(p)) for p in paths", no_nonfinite, ". as $v | [paths as $p | ($v | setpath($p; getpath($p))) == $v] | all"),
     ("[paths] = [path(..)] - root", no_nonfinite, "[paths] == ([path(..)] | map(select(. != [])))"),
     ("tostream leaves", no_nonfinite, ". as $v | [tostream | select(length == 2) | . as [$p, $leaf] | ($v | getpath($p)) == $leaf] | all"),
+    # the same laws with paths that went through JSON text (fromjson and the decoders keep number literals: path elements of another Go type)
+    ("fromstream of re-read events", no_nonfinite, "fromstream([tostream] | tojson | fromjson | .[]) == ."),
+    ("replay re-read events with setpath", no_nonfinite, ". as $v | (reduce ([tostream] | tojson | fromjson | .[] | select(length == 2)) as [$p, $x] (null; setpath($p; $x))) == $v"),
+    ("setpath(p; getpath(p)) for re-read paths", no_nonfinite, ". as $v | [([paths] | tojson | fromjson | .[]) as $p | ($v | setpath($p; getpath($p))) == $v] | all"),
+    ("setpath|getpath on null for re-read paths", no_nonfinite, "[([paths] | tojson | fromjson | .[]) as $p | (null | setpath($p; \"X\") | getpath($p)) == \"X\"] | all"),
+    ("delpaths / del / getpath with re-read paths", no_nonfinite, ". as $v | ([paths] | tojson | fromjson) as $ps | ($v | delpaths($ps)) == ($v | delpaths([paths])) and ([$ps[] as $p | ($v | getpath($p))] == [paths as $p | getpath($p)]) and ([$ps[] as $p | ($v | delpaths([$p]))] == [paths as $p | delpaths([$p])])"),
     ("replay events with setpath", no_nonfinite, ". as $v | (reduce (tostream | select(length == 2)) as [$p, $x] (null; setpath($p; $x))) == $v"),
 ]
 DATE_LAWS = [("todate|fromdate", "(todate | fromdate) == ."), ("gmtime|mktime", "(gmtime | mktime) == .")]
@@ -109,6 +115,11 @@ def run(tier, seed, replay):
                     pass
             for k in range(0, len(enc), 40):
                 cases.append({"id": len(cases), "src": q, "inputs": enc[k:k + 40], "law": name})
+                # the same inputs as the decoders hand them over (json.Number) and with every integer as *big.Int
+                for rp in (2, 1):
+                    if quick and (k // 40 + rp) % 2:
+                        continue
+                    cases.append({"id": len(cases), "src": q, "inputs": enc[k:k + 40], "law": name + " [numbers as %s]" % ("json.Number" if rp == 2 else "*big.Int"), "rep": rp})
         recs = evalfam.replay(work, vh, cases, tag="laws")
         for c, rec in zip(cases, recs):
             for run_ in rec.get("runs", []):
